@@ -41,7 +41,7 @@ THEOREMS = {
     "Proofs.C12": ["VerifModel.C12." + t for t in [
         "C12_csv_shape", "C12_csv_lines", "C12_csv_cell", "C12_text_shape", "C12_text_lines",
         "C12_fmtG_sound", "C12_fmtG_special", "C12_fmtG_chars", "C12_descs", "C12_descs_other",
-        "C12_acc", "C12_acc_finite", "C12_threshold_avg", "C12_file_same"]],
+        "C12_acc", "C12_acc_full", "C12_threshold_avg", "C12_file_same"]],
     "Proofs.Lemmas.Decimal": ["VerifModel.Decimal." + t for t in [
         "ilog10_spec", "floorLog10_spec", "roundHalfEven_spec", "toDec_digits", "toDec_sound", "toDec_exp",
         "unsignedVal_fixed", "unsignedVal_sci", "fmtG_reads", "fmtG_sound"]],
@@ -67,8 +67,8 @@ ASSUMPTIONS = [
     "blank at either end; text — first header name non-empty, every name / legend / string descriptor without '|' or "
     "newline and without blank at either end (may be empty); every row has one descriptor per header name and one "
     "score per legend entry.  Outside that domain (e.g. -leg 'c|d') only correspondence and oracle speak",
-    "-acc in the property's form (NaN counts as 0): no infinite score (C12_acc_finite); C12_acc states what the code "
-    "does for every input (+-inf becomes +-DBL_MAX) — known finding acc-inf",
+    "-acc: running sums in exact arithmetic with IEEE special values (NaN counts as 0, an infinite score makes the "
+    "sum infinite, +inf and -inf together NaN) for every input (C12_acc_full); rounding of the float sums is not modelled",
     "generated datasets: whole-day init times, obs identical across files for the same case, values exactly "
     "representable in float32",
 ]
@@ -80,7 +80,7 @@ RULE = ("out.table (first, so that a failing input is a command line): 1-3 gener
         "precisions 0,1,2,3,4,6,10,17; out.writer: the real Output.csv/.text on random tables (0-5 rows, 1-4 descriptor "
         "columns of strings/numbers/None, 1-4 score columns from a pool of special doubles, ASCII/Unicode/blank-"
         "containing labels, 12% with separators / newlines / edge blanks inside labels), with and without a file name; "
-        "out.acc / out.tavg: Standard._get_x_y on a stub metric with random matrices (NaN, one-signed inf); "
+        "out.acc / out.tavg: Standard._get_x_y on a stub metric with random matrices (NaN, +-inf); "
         "out.seldesc: 2 writers x 4 axis kinds.  Non-trivial = the emitted table (resp. value) contains a non-zero "
         "digit after the header, i.e. at least one finite non-zero score; distinct = distinct op lines")
 EXHAUSTIVE = {"quick": False, "thorough": False}
@@ -91,7 +91,7 @@ LEVEL_TEXT = ("Lean theorems over the model of the writers: parse(print(table)) 
               "size; %.{p}g is sound for every non-zero rational and every p: the printed numeral reads back as "
               "+-m*10^(X-P+1) with exactly P significant digits, within half a unit of the P-th digit of the exact "
               "value, scientific notation exactly when X < -4 or X >= P (both notations, string level); nan/inf/0 "
-              "exact; -acc entry (i,j) is the sum over k<=i of the scores with NaN as 0 (finite scores); threshold "
+              "exact; -acc entry (i,j) is the sum over k<=i of the scores with NaN as 0 (infinite scores included); threshold "
               "averaging is the mean over intervals; the -f content is the printed content.  The model is tied to "
               "/repo on every run by byte-exact correspondence with the real verif.driver.run output on generated "
               "datasets (table captured from the running code as exact doubles) and with the real writers on "
@@ -533,8 +533,10 @@ def _scen_ops(scen, with_f):
 def _gen_matrix(rng, allow_inf=False):
     n, F = rng.randint(1, 6), rng.randint(1, 4)
     pool = [0.0, 1.0, 0.5, -2.25, 3.0, float("nan"), 7.125, 1e3, -0.125, 41.0]
-    if allow_inf:   # one sign only: DBL_MAX + 1000 - DBL_MAX is 0 in binary64, 1000 exactly
+    if allow_inf:   # one sign in most matrices, both in some (inf - inf = NaN from there on)
         pool += [rng.choice([float("inf"), float("-inf")])]
+        if rng.random() < 0.3:
+            pool += [float("inf"), float("-inf")]
     if rng.random() < 0.3:
         return [[rng.choice(pool) if rng.random() < 0.3 else rng.uniform(-10, 10) for _ in range(F)] for _ in range(n)]
     return [[rng.choice(pool) for _ in range(F)] for _ in range(n)]
@@ -1083,13 +1085,19 @@ def judge(op, impl_out, spec_out):
         m = parse_matrix(a[1])
         got = parse_matrix(impl_out)
         if any(math.isinf(v) for r in m for v in r):
+            if len(got) != len(m):
+                return ({"kind": "acc"}, "-acc changes the number of rows: %s -> %s" % (a[1], impl_out))
             run = [0.0] * len(m[0])
             for i, r in enumerate(m):
                 run = [s + (0.0 if math.isnan(v) else v) for s, v in zip(run, r)]
-                for g, s_ in zip(got[i] if i < len(got) else [], run):
-                    if math.isinf(s_) and g != s_:
+                if len(got[i]) != len(run):
+                    return ({"kind": "acc"}, "-acc changes the number of columns in row %d: %s -> %s" % (i, a[1], impl_out))
+                for g, s_ in zip(got[i], run):
+                    ok = math.isnan(g) if math.isnan(s_) else (g == s_ if math.isinf(s_) else num_close(g, s_, 1e-9, 1e-300))
+                    if not ok:
                         return ({"kind": "acc-inf", "stream": "acc"}, "-acc row %d is %r where the running sum is %r "
-                                "(an infinite score is replaced by the largest double); input %s" % (i, g, s_, a[1]))
+                                "(an infinite score must make the running sum infinite; the largest double is not a "
+                                "sum of scores); input %s" % (i, g, s_, a[1]))
             return None
         run = [Fraction(0)] * len(m[0])
         if len(got) != len(m):
